@@ -40,6 +40,7 @@ const (
 	kJsList   // []js.Value
 	kJsType   // js.Type: its name
 	kAny      // any: what a callback hands to JavaScript
+	kSuiteI   // the interface Suite: nil, or one of its two implementations (both are their configuration)
 	kOther
 )
 
@@ -58,7 +59,9 @@ func (t *tr) kindOf(ty types.Type) kind {
 			return kHash
 		case pk == t.pkg.PkgPath && n == "Param":
 			return kParam
-		case pk == t.pkg.PkgPath && (n == "SuiteConfig" || n == "RawSuite" || n == "Suite"):
+		case pk == t.pkg.PkgPath && n == "Suite":
+			return kSuiteI
+		case pk == t.pkg.PkgPath && (n == "SuiteConfig" || n == "RawSuite"):
 			return kSuite
 		case pk == t.pkg.PkgPath && n == "OCRAInput":
 			return kInput
@@ -215,6 +218,8 @@ func (t *tr) coqType(n ast.Node, ty types.Type) string {
 		return "param"
 	case kSuite, kSuitePtr:
 		return "suite_cfg"
+	case kSuiteI:
+		return "(option suite_cfg)"
 	case kStrList:
 		return "(list bytes)"
 	case kInput:
@@ -276,7 +281,7 @@ func (t *tr) zero(n ast.Node, ty types.Type) string {
 			return fmt.Sprintf("(repeat 0%%N %d)", a.Len())
 		}
 		return "[]"
-	case kErr, kParamPtr, kHashCtor, kURLPtr, kUParamPtr:
+	case kErr, kParamPtr, kHashCtor, kURLPtr, kUParamPtr, kSuiteI:
 		return "None"
 	case kStrList, kPairs:
 		return "[]"
